@@ -17,8 +17,12 @@ spec/ScriptGen.tla  case families: programs enumerated position by position over
   5. R->V: seeded random programs of up to ~300 opcodes run by the real interpreter (bare / P2WSH / tapscript) with the
      per-opcode hook of lib/script (build tag verif); spec/TraceScript.tla replays every trace on the specification's
      step function comparing position, opcode, exec flag, stack / altstack / condition depth, top element, verdict
+  6. concurrency: a mix of the exported cases (accept and reject rows of every script kind) plus key-hash spends with
+     eight different keys is judged sequentially, then script.VerifyTxScript runs on the same prepared inputs from many
+     goroutines (GOMAXPROCS 2/4/16; different cases side by side and the same case everywhere); every verdict must be the
+     sequential one; once more under the Go race build (reports with both accesses inside the repository are violations)
 """
-import copy, json, os, re, hashlib, time
+import copy, glob, json, os, re, hashlib, time
 from concurrent.futures import ThreadPoolExecutor
 from vf import Infra
 
@@ -269,6 +273,79 @@ def record_validate(ctx, binp, ntraces, chunk):
     return stats, first, viol
 
 
+def race_reports(ctx, tag):
+    """reports of the Go race detector (classification as in checks/c02.py / c11.py): (inside the repository, elsewhere), lists of
+    (signature, text); a report counts against gocoin when the innermost non-runtime frames of BOTH accesses are in ctx.repo"""
+    genuine, other = [], []
+    repo = os.path.realpath(ctx.repo) + "/"
+    for fn in glob.glob(os.path.join(ctx.scratch, "race-" + tag + ".*")):
+        txt = open(fn, errors="replace").read()
+        for blk in txt.split("=================="):
+            if "WARNING: DATA RACE" not in blk:
+                continue
+            tops = []
+            for sec in re.split(r"\n\s*\n", blk):
+                m = re.search(r"^(?:Previous )?(?:[Aa]tomic )?(?:[Rr]ead|[Ww]rite) at 0x[0-9a-f]+ by .*?:\n((?:  .*\n?)+)", sec, re.M)
+                if not m:
+                    continue
+                top = None
+                for fun, path, line in re.findall(r"^  (\S.*)\n\s+(\S+?):(\d+)", m.group(1), re.M):
+                    if "/go-" in path or "/go/src/" in path or path.startswith("/usr/lib/go") or "/golang" in path:
+                        continue
+                    top = (re.sub(r"\(\)$", "", fun).replace("github.com/piotrnar/gocoin/", ""), path)
+                    break
+                tops.append(top)
+            if len(tops) < 2 or any(t is None for t in tops[:2]):
+                other.append(("unparsed", blk[:3000]))
+                continue
+            inrepo = [os.path.realpath(t[1]).startswith(repo) for t in tops[:2]]
+            names = sorted(set("%s@%s" % (t[0], os.path.basename(t[1])) for t in tops[:2]))
+            (genuine if all(inrepo) else other).append(("C01:race:" + "|".join(names), blk[:6000]))
+    return genuine, other
+
+
+def conc_driver(ctx, binp, path, calls, procs, env=None, timeout=3000):
+    p = ctx.run([binp, "conc", "-in", path, "-seed", str(ctx.seed), "-calls", str(calls), "-procs", procs], timeout=timeout, env=env)
+    fails, summary = [], None
+    for ln in p.stdout.splitlines():
+        if ln.startswith("{"):
+            j = json.loads(ln)
+            if j.get("summary"):
+                summary = j
+            elif not j.get("ok", True):
+                fails.append(j)
+    if p.returncode != 0 or summary is None:
+        raise Infra("concurrency driver failed (rc=%d): %s" % (p.returncode, p.stderr[-3000:]))
+    return summary, fails
+
+
+def concurrency(ctx, binp, racebin, path, cov):
+    """script.VerifyTxScript from many goroutines: every verdict must be the sequential one; then the same mix under the race build"""
+    quick = ctx.tier == "quick"
+    summ, fails = conc_driver(ctx, binp, path, 100000 if quick else 400000, "2,4,16")
+    for f in fails:
+        ctx.violation("C01:concurrent:%s:%s:%s>%s" % (f["fam"], f["w"], f["want"], f["got"][:5]),
+                      {"stage": "concurrency", "seed": ctx.seed, "case": f},
+                      "VerifyTxScript answered %s for a %s/%s case (%s, flags %s) when called from %d goroutines at GOMAXPROCS=%d; alone it answers %s, "
+                      "as the rules say" % (f["got"], f["fam"], f["w"], f["tag"], ",".join(f["flags"]) or "NONE", f["goroutines"], f["gomaxprocs"], f["want"]))
+    env = {"GORACE": "halt_on_error=0 exitcode=0 log_path=%s" % os.path.join(ctx.scratch, "race-conc")}
+    rsumm, rfails = conc_driver(ctx, racebin, path, 12000 if quick else 60000, "4", env=env)
+    g, h = race_reports(ctx, "conc")
+    for sig, txt in g:
+        ctx.violation(sig, {"stage": "concurrency", "kind": "race", "seed": ctx.seed, "race_report": txt},
+                      "data race inside the repository while VerifyTxScript runs in several goroutines (%s)" % sig)
+    for f in rfails:
+        ctx.violation("C01:concurrent:%s:%s:%s>%s" % (f["fam"], f["w"], f["want"], f["got"][:5]), {"stage": "concurrency (race build)", "seed": ctx.seed, "case": f},
+                      "VerifyTxScript answered %s for a %s/%s case under the race build with %d goroutines; alone %s" % (f["got"], f["fam"], f["w"], f["goroutines"], f["want"]))
+    cov["concurrency"] = {"cases": summ["lines"], "case_flag_rows": summ["items"], "rows_accepted": summ["items_accepted"], "script_kinds": summ["kinds"],
+                          "key_hash_rows": summ["hot_items"], "calls": summ["calls"], "wrong": summ["fail"], "gomaxprocs": [2, 4, 16],
+                          "race_build_calls": rsumm["calls"], "race_build_wrong": rsumm["fail"], "race_reports_in_repo": len(g)}
+    ctx.log("concurrency: %d calls over %d rows of %d script kinds, %d wrong; race build: %d calls, %d wrong, %d report(s) inside the repository" % (
+        summ["calls"], summ["items"], summ["kinds"], summ["fail"], rsumm["calls"], rsumm["fail"], len(g)))
+    if h and not ctx.violations:
+        raise Infra("race report with an access outside the repository (harness or runtime, not a verdict):\n" + h[0][1][:3000])
+
+
 def run(ctx):
     quick = ctx.tier == "quick"
     binp = ctx.build("script")
@@ -288,13 +365,14 @@ def run(ctx):
     f_bad = ex.submit(sub(ctx, 49).tlc, "ScriptGen", "Script_mc", workers=2, timeout=1500,
                       defines=dict(FAM="lock", MAXLEN=0, CLTVPOPS="TRUE", TIER=ctx.tier))
     f_rec = ex.submit(record_validate, sub(ctx, 91), binp, 160 if quick else 4000, 80 if quick else 500)
+    f_race = ex.submit(ctx.build, "script", True)
     try:
-        run_phases(ctx, binp, cov, mc, f_mc, f_bad, f_vec, f_exp, f_rec, t0)
+        run_phases(ctx, binp, cov, mc, f_mc, f_bad, f_vec, f_exp, f_rec, t0, f_race)
     finally:
         ex.shutdown(wait=True, cancel_futures=True)
 
 
-def run_phases(ctx, binp, cov, mc, f_mc, f_bad, f_vec, f_exp, f_rec, t0):
+def run_phases(ctx, binp, cov, mc, f_mc, f_bad, f_vec, f_exp, f_rec, t0, f_race):
     # ---- 1. the design
     states = 0
     for fam, ml, fu in f_mc:
@@ -323,8 +401,11 @@ def run_phases(ctx, binp, cov, mc, f_mc, f_bad, f_vec, f_exp, f_rec, t0):
     totals = {"lines": 0, "evaluations": 0, "distinct": 0, "distinct_nontrivial": 0, "model_accepts": 0}
     fams = {}
     first = None
+    allpath = None
     for fu in f_exp:
         tag, path, n, r = fu.result()
+        if tag == "all":
+            allpath = path
         summ, fails = replay(ctx, binp, path)
         if summ["lines"] != n:
             raise Infra("replay %s: %d of %d lines" % (tag, summ["lines"], n))
@@ -386,6 +467,9 @@ def run_phases(ctx, binp, cov, mc, f_mc, f_bad, f_vec, f_exp, f_rec, t0):
         acc, hw, r = validate_trace(ctx, 300, mutp)
         if acc or hw != k + 1:
             raise Infra("binding self-test failed: corrupted trace accepted=%s first rejected line=%s expected %d" % (acc, hw, k + 1))
+
+    # ---- 6. concurrency: the interpreter is called from one goroutine per input by lib/chain and client/txpool
+    concurrency(ctx, binp, f_race.result(), allpath, cov)
 
     if vec_problem is not None:
         raise vec_problem
